@@ -272,7 +272,9 @@ func genC03(r *rand.Rand, tier string, env *Env) []Case {
 		lines := strings.Split(p.Input, "\n")
 		for k := 0; k < extra; k++ {
 			at := r.Intn(len(lines) + 1)
-			l := pick(r, []string{"##! x ##!> include inc1", "##! ##!+ i", "  ##! note ##!> define a b", "##!+ is", "##!+ si", "##!> define zz {{d1}}q", "##!> define d1 override", "##! ##!> include-except inc1 inc2"})
+			l := pick(r, []string{"##! x ##!> include inc1", "##! ##!+ i", "  ##! note ##!> define a b", "##!+ is", "##!+ si", "##!> define zz {{d1}}q", "##!> define d1 override", "##! ##!> include-except inc1 inc2",
+				// comments whose text begins with a directive's marker character
+				"##! ^ is the start anchor", "##! $ is deliberately not appended here", "##! + s", "##!  + i", "##! > include inc1", "##! = > x", "##!\t^ tabbed"})
 			lines = append(lines[:at:at], append([]string{l}, lines[at:]...)...)
 		}
 		p.Input = strings.Join(lines, "\n")
